@@ -121,6 +121,18 @@ fn alphabet(n: usize, tier: Tier) -> Vec<Dev> {
         s.extra_attrs.push("#[strum_discriminants(derive(strum::EnumIter, strum::EnumString, strum::Display), strum(serialize_all = \"snake_case\"))]".into());
         true
     }));
+    // derives that reach the generated enum only through a passed-through attribute, together with a variant-level pass-through
+    d.push(dev("strum_discriminants(cfg_attr(all(), derive(EnumMessage))) + v0 pass-through message", &["dd", "dmsg0"], |s| {
+        s.extra_attrs.push("#[strum_discriminants(cfg_attr(all(), derive(strum::EnumMessage)))]".into());
+        s.variants[0].extra_attrs.push("#[strum_discriminants(strum(message = \"dm0\"))]".into());
+        true
+    }));
+    // two separate derive lists whose paths end in the same segment but name different macros
+    d.push(dev("two strum_discriminants(derive(..)) lists: strum::Display and alias::Display (= strum::EnumCount)", &["dd"], |s| {
+        s.extra_attrs.push("#[strum_discriminants(derive(strum::Display))]".into());
+        s.extra_attrs.push("#[strum_discriminants(derive(super::alias::Display))]".into());
+        true
+    }));
     d.push(dev("strum_discriminants(doc = \"docs\")", &["ddoc"], |s| {
         s.extra_attrs.push("#[strum_discriminants(doc = \"docs\")]".into());
         true
@@ -244,7 +256,7 @@ pub fn render(spec: &EnumSpec) -> String {
         }
     }
     inner.push_str(&render_enum(spec, &["Debug", "Clone", "strum::EnumDiscriminants"]));
-    let mut o = format!("mod inner {{\n{}}}\n", inner);
+    let mut o = format!("mod alias {{ pub use strum::EnumCount as Display; }}\nmod inner {{\n{}}}\n", inner);
     o.push_str(&format!("type EC = inner::{}{};\ntype DC = inner::{};\n", spec.name, spec.generics_inst(), dn));
     // hand-written reference enum with the same repr and discriminants
     if let Some(r) = &spec.repr {
@@ -304,6 +316,10 @@ pub fn render(spec: &EnumSpec) -> String {
             o.push_str(&format!("    extras.push((\"pass-through serialize_all: Display of {id}\".into(), {sn:?}.into(), DC::{id}.to_string()));\n", id = v.ident, sn = snake));
             o.push_str(&format!("    extras.push((\"pass-through serialize_all: EnumString of {sn}\".into(), \"Ok({id})\".into(), format!(\"{{:?}}\", <DC as core::str::FromStr>::from_str({sn:?}))));\n", id = v.ident, sn = snake));
         }
+    }
+    if all.contains("alias::Display") {
+        o.push_str(&format!("    extras.push((\"first derive list (strum::Display) took effect\".into(), {id:?}.into(), DC::{id}.to_string()));\n", id = spec.variants[0].ident));
+        o.push_str(&format!("    extras.push((\"second derive list (alias::Display = EnumCount) took effect\".into(), \"{n}\".into(), format!(\"{{}}\", <DC as strum::EnumCount>::COUNT)));\n", n = spec.variants.len()));
     }
     if all.contains("strum::EnumMessage") {
         for (i, v) in spec.variants.iter().enumerate() {
